@@ -798,6 +798,8 @@ func (env *Env) call(x *ast.CallExpr) (tv, error) {
 		}
 		switch a.t.Sort {
 		case SSlice:
+			// lengths of well-formed slices are non-negative (standing fact about Go values)
+			ex.sc.axiom(app(SBool, ">=", app(SInt, "slen", a.t), intLit(0)))
 			return tv{t: app(SInt, "slen", a.t), typ: types.Typ[types.Int]}, nil
 		case SStr:
 			return tv{t: app(SInt, "str.len", a.t), typ: types.Typ[types.Int]}, nil
@@ -906,6 +908,8 @@ func (env *Env) call(x *ast.CallExpr) (tv, error) {
 		arr := ex.get(env.st, compElem(el), arraySort(SInt, arraySort(SInt, SInt)))
 		fn := sc.declareFun("strOfBytes", []string{arraySort(SInt, SInt), SInt, SInt}, SStr)
 		return tv{t: app(SStr, fn, sel(arr, app(SInt, "sarr", v.t)), app(SInt, "soff", v.t), app(SInt, "slen", v.t)), typ: types.Typ[types.String]}, nil
+	case "dyncalls":
+		return tv{t: ex.get(env.st, "G:dyncalls", SInt)}, nil
 	case "clock":
 		return tv{t: ex.get(env.st, "G:clock", SInt)}, nil
 	case "nanos":
